@@ -25,7 +25,7 @@ def plan(tier, seed):
     shards = []
     for kind in ("soup", "hostile_moderate", "hostile_extreme", "validator", "convert_soup"):
         shards += [{"kind": kind, "seed": seed, "shard": i, "n": 300} for i in range(k)]
-    shards += [{"kind": "faults", "seed": seed, "shard": i, "n": 10} for i in range(24 if tier == "quick" else 400)]
+    shards += [{"kind": "faults", "seed": seed, "shard": i, "n": 25} for i in range(32 if tier == "quick" else 400)]
     shards += [{"kind": "mcp_soup", "seed": seed, "shard": i, "n": 120} for i in range(4 if tier == "quick" else 60)]
     return shards
 
@@ -111,7 +111,14 @@ def run_lib_cases(cases, regime, cnt, viols, hashes, samples, fx="bundled"):
     for c, o in zip(cases, obs):
         cnt["library_calls"] += 1
         if "panic" in o:
-            viols.append({"clause": "panic", "signature": panic_signature(o["panic"], regime),
+            reg = regime
+            if regime in ("soup", "convert"):
+                # token soup draws from a vocabulary that includes the largest representable numbers; a soup text that
+                # carries a number of 20+ digits is in the extreme regime (where F8 is the known overflow), others are not
+                text = " ".join(str(c.get(k_, "")) for k_ in ("dsl", "text", "json", "transactions_json", "awards_json"))
+                if re.search(r"\d{20,}", text.replace(",", "")):
+                    reg = regime + "-with-a-20-digit-number"
+            viols.append({"clause": "panic", "signature": panic_signature(o["panic"], reg),
                           "detail": f"{o['panic'].get('message')} at {o['panic'].get('location', '')[-70:]}", "case": c})
         elif "err" in o:
             cnt["error_kind_" + o["err"].get("kind", "?")] += 1
@@ -516,7 +523,7 @@ def replay(case):
     return [], {"note": "fault cases recorded before the sandbox contents were kept: re-run the shard"}
 
 
-THRESHOLDS = {"ok_runs_succeeded": 10, "library_calls": 8000, "hostile_moderate_ledgers": 2000, "hostile_extreme_ledgers": 2000, "validator_cases": 2000,
+THRESHOLDS = {"ok_runs_succeeded": 8, "library_calls": 8000, "hostile_moderate_ledgers": 2000, "hostile_extreme_ledgers": 2000, "validator_cases": 2000,
               "validator_valid_inputs": 100, "validator_reason_quantity<=0": 200, "validator_reason_ratio<=0": 100,
               "validator_reason_fee<0": 100, "validator_reason_price/total<0": 200, "process_runs": 100,
               "failing_runs_observed": 50, "default_pdf_overwrite_refused": 3,
